@@ -713,6 +713,68 @@ func runComplete(e *ev.Env) {
 		}
 	})
 
+	// Long patterns: 28, 29 and 30 parameters — 30 is the most a request context holds (a pattern
+	// with 31 registers, but serving any request that reaches it panics with an index out of
+	// range in the matcher, on the unchanged tree as well: not generated). Every filling is
+	// dispatched on an app that has just served another filling of the same pattern, so a value
+	// that is not written shows up as empty or as the previous request's.
+	e.Cases("long", e.N(400, 8000), func(c *ev.Case) {
+		r := c.R
+		n := gen.Pick(r, []int{28, 29, 30, 30})
+		seps := []string{"/", "/", "-", ".", "/a/", "-x-", ".v."}
+		toks := []tok{{Kind: tLit, Lit: gen.Pick(r, []string{"/", "/api/", "/v1-"})}}
+		nn := 0
+		for i := 0; i < n; i++ {
+			t := tok{Kind: []int{tNamed, tNamedOpt, tStar, tPlus}[r.PickW(80, 12, 4, 4)]}
+			if t.Kind == tNamed || t.Kind == tNamedOpt {
+				nn++
+				t.Name = "p" + strconv.Itoa(nn)
+			}
+			toks = append(toks, t)
+			if i < n-1 || r.Chance(1, 3) {
+				toks = append(toks, tok{Kind: tLit, Lit: gen.Pick(r, seps)})
+			}
+		}
+		pat := pattern{Toks: toks}
+		cfg := cfg8(r.Intn(8))
+		cfg.CustomCtx = r.Chance(1, 4)
+		cr := newCompleteRunner(e, c, pat, cfg)
+		if cr == nil {
+			return
+		}
+		vpool := []string{"x", "xy", "v1", "hello", "Q", "7", "zz9"}
+		fill := func() []string {
+			vals := make([]string, len(toks))
+			for i, t := range toks {
+				if t.Kind == tLit {
+					continue
+				}
+				vals[i] = gen.Pick(r, vpool)
+				if (t.Kind == tNamedOpt || t.Kind == tStar) && r.Chance(1, 3) {
+					vals[i] = ""
+				}
+			}
+			return vals
+		}
+		judged := 0
+		for k := 0; k < 8 && judged < 3; k++ {
+			warm, vals := fill(), fill()
+			if !legalFilling(pat, warm) || !legalFilling(pat, vals) {
+				continue
+			}
+			cr.dispatch(pat.fill(warm)) // the request before: other values in the context's slots
+			cr.checkFilling(vals)
+			judged++
+		}
+		e.Stat(fmt.Sprintf("long_patterns_with_%d_parameters", n), 1)
+		if judged == 0 {
+			e.Stat("long_patterns_without_legal_filling", 1)
+		}
+		if c.R.Chance(1, 100) {
+			e.Sample("long-pattern", map[string]any{"pattern": pat.String(), "cfg": cfg.String(), "parameters": n})
+		}
+	})
+
 	// '+' and blanks. With UnescapePath the framework decodes the path with a query-argument
 	// decoder, which also turns '+' into a blank; the documentation only speaks of "encoded
 	// characters", so what a '+' means under UnescapePath is not judged by construction. Judged
